@@ -1,4 +1,5 @@
 """C13 — event monitor never loses an event and reports exactly enabled-and-pending."""
+import ast
 from ..core import dl, ir
 from .common import get_ctx, require_supported, check_dl, single_unconditional
 from . import apirules
@@ -47,34 +48,62 @@ def monitor(rep, idx, c):
 
     # C13.1 -- previous-cycle register for the edge modes
     prev = None
+    P = None
     for s in c.t.sigs.values():
         ds = c.drivers_of(('sig', s.id, s.name))
         if ds and all(c.norm(d.value) == c.norm(A(sub, 'i')) for d in ds):
             prev = s
+            P = ('sig', s.id, s.name)
+    if P is None:
+        # a register that lives on the component (created by the constructor) instead of a local one
+        for (dom, key), ds in c.groups.items():
+            tn = c.tir[(dom, key)]
+            root = tn
+            while root[0] in ('sub', 'attr'):
+                root = root[1]
+            if dom == "sync" and root == ('name', 'self') and ds and all(c.norm(d.value) == c.norm(A(sub, 'i')) for d in ds):
+                P = tn
     trg_ds = c.drivers_of(A(sub, 'trg'))
     any_mode = "(sub.trigger == Source.Trigger.LEVEL) | (sub.trigger == Source.Trigger.RISE) | (sub.trigger == Source.Trigger.FALL)"
-    if prev is None:
-        rep.bad("C13.1", site, "previous-cycle input register", "no local register is loaded from sub.i; edge modes cannot compare with the previous cycle")
+    if P is None:
+        rep.bad("C13.1", site, "previous-cycle input register", "no register is loaded from sub.i; edge modes cannot compare with the previous cycle")
     else:
-        P = ('sig', prev.id, prev.name)
         env["i_r"] = P
         pds = c.drivers_of(P)
         doms = {d.domain for d in pds}
+        pname = prev.name if prev is not None else ir.show(P)
         if doms != {"sync"}:
-            rep.bad("C13.1", site, "previous-cycle input register", f"{prev.name} is driven in {sorted(doms)}; it must be a sync register (one cycle delay)",
+            rep.bad("C13.1", site, "previous-cycle input register", f"{pname} is driven in {sorted(doms)}; it must be a sync register (one cycle delay)",
                     lines=[d.lineno for d in pds])
         else:
             check_dl(rep, "C13.1", c, "i_r' = sub.i in the edge modes", pds, dl.HOLD, [("1", "sub.i")], env,
                      assume="(sub.trigger == Source.Trigger.RISE) | (sub.trigger == Source.Trigger.FALL)")
-        init = prev.kw('init') or prev.kw('reset')
-        like_ok = prev.ctor[1] == ('attr', ('name', 'Signal'), 'like') or prev.ctor[1] == ('name', 'Signal')
-        rep.check(like_ok and (init is None or init == ('const', 0)), "C13.1", site, "i_r starts low",
-                  f"{prev.name} is created as {ir.show(prev.ctor)}", nontrivial=False)
+        if prev is not None:
+            init = prev.kw('init') or prev.kw('reset')
+            like_ok = prev.ctor[1] == ('attr', ('name', 'Signal'), 'like') or prev.ctor[1] == ('name', 'Signal')
+            rep.check(like_ok and (init is None or init == ('const', 0)), "C13.1", site, "i_r starts low",
+                      f"{prev.name} is created as {ir.show(prev.ctor)}", nontrivial=False)
+        else:
+            # created in the constructor: self.<table>[...] = Signal.like(<source>.i, ...) with no non-zero init
+            attr = P
+            while attr[0] == 'sub':
+                attr = attr[1]
+            made = []
+            init_fn = c.fi.cls.method("__init__") if c.fi.cls is not None else None
+            if init_fn is not None and attr[0] == 'attr':
+                for n in ast.walk(init_fn.node):
+                    if isinstance(n, ast.Assign) and len(n.targets) == 1 and isinstance(n.targets[0], ast.Subscript) and \
+                            ast.unparse(n.targets[0].value) == f"self.{attr[2]}" and isinstance(n.value, ast.Call):
+                        made.append(n.value)
+            ok = bool(made) and all(ast.unparse(m_.func) in ("Signal", "Signal.like") and
+                                    not any(k.arg in ("init", "reset") and not (isinstance(k.value, ast.Constant) and k.value.value in (0, False))
+                                            for k in m_.keywords) for m_ in made)
+            rep.form(ok, "C13.1", site, "i_r starts low", f"{ir.show(P)} is created by the constructor as {[ast.unparse(m_)[:60] for m_ in made]}")
     if not trg_ds:
         rep.bad("C13.1", site, "sub.trg driver", "sub.trg is never driven")
     elif {d.domain for d in trg_ds} != {"comb"}:
         rep.bad("C13.1", site, "sub.trg driver", "sub.trg must be combinational", lines=[d.lineno for d in trg_ds])
-    elif prev is not None:
+    elif P is not None:
         check_dl(rep, "C13.1", c, "sub.trg per trigger mode (LEVEL: i; RISE: ~i_r & i; FALL: i_r & ~i)", trg_ds, "0",
                  [("sub.trigger == Source.Trigger.LEVEL", "sub.i"),
                   ("sub.trigger == Source.Trigger.RISE", "~i_r & sub.i"),
